@@ -52,4 +52,13 @@ def jobs(tier, seed):
                               remove_bodies=["of_rs_finish_decoding", "of_rs_2_m_finish_decoding"],
                               timeout=600, mem_gb=6, status="proved",
                               bound="session shape n <= 15, length <= 4 (rejected calls are loop-free; the bound only sizes the harness tables)"))
+    # LDPC accept direction on concrete in-limits points with the REAL construction ("accepted => usable": the session's matrix is the code's matrix,
+    # C05's contract; a slice of that family re-run here; BOUNDED) and the decoding session contract on an accepted configuration (C03/C04 families)
+    from checks import c05
+    for j in c05.jobs(tier, seed)[:(8 if tier == "quick" else 40)]:
+        if j.name.startswith("matrix."):
+            j.name = "ldpc.accept." + j.name
+            j.group = "ldpc_set_fec_parameters_accept"
+            j.relevant = r"^set_params\.|^matrix\."
+            js.append(j)
     return js
